@@ -230,6 +230,25 @@ def install(E):
     L['numpy.ones'] = np_alloc(1)
     L['numpy.empty'] = np_alloc('uninit')
 
+    def np_expand_dims(E, x, axis):
+        if isinstance(x, ArrV) and not x.clauses and isinstance(axis, int):
+            sh = list(x.shape)
+            ax = axis if axis >= 0 else len(sh) + 1 + axis
+            sh.insert(ax, 1)
+            return ArrV(z3.Const(fresh_name('arr'), V), sh, x.fill)
+        return E.app('numpy.expand_dims', [x, axis], tag='ndarray')
+    L['numpy.expand_dims'] = np_expand_dims
+
+    def np_repeat(E, x, k, axis=None):
+        if isinstance(x, ArrV) and not x.clauses and isinstance(axis, int):
+            ax = axis % len(x.shape)
+            if isinstance(x.shape[ax], int) and x.shape[ax] == 1:
+                sh = list(x.shape)
+                sh[ax] = k if isinstance(k, int) else E.as_int(k)
+                return ArrV(z3.Const(fresh_name('arr'), V), sh, x.fill)
+        return E.app('numpy.repeat', [x, k, axis], tag='ndarray')
+    L['numpy.repeat'] = np_repeat
+
     def deepcopy(E, x):
         return E.deepcopy(x)
     L['copy.deepcopy'] = deepcopy
